@@ -216,7 +216,7 @@ func (w *World) blockParserMethods() []*ssa.Function {
 func ruleStayOnLine(w *World, r *Report) {
 	r.Rule("C08-L", "In every BlockParser.Open/Continue and the module helpers they pass the reader to: no AdvanceLine on the reader; no Advance(a)/AdvanceAndSetPadding(a,_) whose argument, as a linear form over the peeked segment (Stop, Start, Padding, len(line), Segment.Len()), is provably the whole line or more (no subtracted term).")
 	roots := w.blockParserMethods()
-	r.Expect("BlockParser Open/Continue implementations", len(roots), 20)
+	r.Expect("BlockParser Open/Continue implementations", len(roots), 13)
 	readerT := w.Named("text", "Reader")
 	// helpers: module functions statically called (transitively) that take a text.Reader
 	fns := map[*ssa.Function]bool{}
